@@ -39,7 +39,9 @@ static GLOBAL: alloc_count::Counting = alloc_count::Counting;
 
 fn main() {
     // panics are results, not noise
-    std::panic::set_hook(Box::new(|_| {}));
+    if std::env::var("DDSV_SHOW_PANIC").is_err() {
+        std::panic::set_hook(Box::new(|_| {}));
+    }
 
     let args: Vec<String> = std::env::args().collect();
     if args.len() < 3 {
